@@ -36,13 +36,39 @@ def get_streams(prop):
     return {s.name: s for s in mod.STREAMS}, mod
 
 
+class CaseTimeout(Exception):
+    pass
+
+
+def _alarm(signum, frame):
+    raise CaseTimeout()
+
+
+CASE_LIMIT_S = 60
+
+
 def safe_run(stream, case, drv):
+    import signal
+    limit = getattr(stream, "limit", CASE_LIMIT_S)
+    old = signal.signal(signal.SIGALRM, _alarm)
+    signal.setitimer(signal.ITIMER_REAL, limit)
     try:
         return stream.run(case, drv)
+    except CaseTimeout:
+        # the driver may be mid-request: restart it so that later cases are not confused
+        try:
+            drv.p.kill()
+        except Exception:
+            pass
+        drv.__init__()
+        return core.fail(f"no result within {limit} s (similar cases take milliseconds): the call did not terminate")
     except core.DriverError:
         raise
     except Exception as e:  # an unexpected exception inside a stream is a harness error, not a verdict
         return core.Result("error", f"{type(e).__name__}: {e}\n{traceback.format_exc()[-1200:]}", False, {})
+    finally:
+        signal.setitimer(signal.ITIMER_REAL, 0)
+        signal.signal(signal.SIGALRM, old)
 
 
 def run_one(prop, stream_name, case):
